@@ -7,6 +7,7 @@ from .. import cprgen
 from .C06 import WINDOW_HI
 
 LEVEL = "exploration"
+BRANCH_TARGETS = ['pyModeS.decoder.bds.bds05:airborne_position_with_ref', 'pyModeS.decoder.bds.bds06:surface_position_with_ref', 'pyModeS.decoder.adsb:position_with_ref']
 TECHNIQUE = 'runtime monitoring: reference CPR encoder as oracle + metamorphic relation between two references inside the half-zone box'
 LEVEL_TEXT = 'Exploration: both parities x airborne/surface x every NL band, references uniform in the box and at 0.999 of its edges/corners, across the equator, Greenwich and the antimeridian.'
 LEVEL_RULE = (
